@@ -470,6 +470,45 @@ class LazyGen(HostIter):
         raise Unsupported("generator method %s" % attr)
 
 
+class SymMatch:
+    """A match on a string with holes: group texts are strings with the same holes."""
+
+    def __init__(self, m, holes):
+        self.m, self.holes = m, holes
+
+    def __deepcopy__(self, memo):
+        return self
+
+    def _back(self, text):
+        if text is None:
+            return None
+        parts, buf = [], ""
+        for ch in text:
+            k = ord(ch) - 0xE000
+            if 0 <= k < len(self.holes):
+                if buf:
+                    parts.append(buf)
+                    buf = ""
+                parts.append(self.holes[k])
+            else:
+                buf += ch
+        if buf:
+            parts.append(buf)
+        if len(parts) == 1 and not isinstance(parts[0], str):
+            return parts[0]
+        return AStr(parts).simplify() if parts else ""
+
+    def ai_call(self, interp, attr, pos, kw, node):
+        if attr == "groups":
+            return tuple(self._back(g) for g in self.m.groups(*pos))
+        if attr == "group":
+            r = self.m.group(*pos)
+            return tuple(self._back(g) for g in r) if isinstance(r, tuple) else self._back(r)
+        if attr == "groupdict":
+            return {k: self._back(v) for k, v in self.m.groupdict().items()}
+        raise Unsupported("match method %s on a string with holes" % attr)
+
+
 class GenList(list):
     """The items a generator expression will produce (evaluated eagerly): a list to every consumer, and next() takes
     items off its front."""
@@ -1824,9 +1863,9 @@ class Interp:
                     return Sym("%s[::-1]" % nm_, "str" if not isinstance(base, Opaque) else "any", None)
                 raise Unsupported("extended slice of %r" % (base,))
             if isinstance(base, (list, tuple, str)):
-                if not all(x is None or (isinstance(x, int) and not isinstance(x, bool)) for x in (lo, hi)):
+                if not all(x is None or isinstance(x, int) for x in (lo, hi)):
                     raise Unsupported("slice of a concrete sequence with abstract bounds")
-                return base[lo:hi]
+                return base[lo:hi]          # a bool bound is 0 / 1, as in Python
             if isinstance(base, AStr) and (isinstance(lo, PosVal) or isinstance(hi, PosVal)) and all(x is None or x == 0 or isinstance(x, PosVal) for x in (lo, hi)):
                 parts = list(base.parts)
                 if isinstance(lo, PosVal) and isinstance(hi, PosVal) and lo.owner == hi.owner == base.render() and lo.part == hi.part and isinstance(parts[lo.part], str) \
@@ -3237,7 +3276,15 @@ class Interp:
                             lit += p_ if isinstance(p_, str) else filler
                         outs.append(getattr(_re.compile(base.pattern), attr)(lit) is not None)
                     if outs[0] == outs[1]:
-                        return outs[0]
+                        if not outs[0]:
+                            return None
+                        # the match object: groups are cut out of the text with each hole kept whole (a private marker per hole)
+                        holes = [p_ for p_ in subj.parts if not isinstance(p_, str)]
+                        lit = "".join(p_ if isinstance(p_, str) else chr(0xE000 + holes.index(p_)) for p_ in subj.parts)
+                        m_ = getattr(_re.compile(base.pattern), attr)(lit)
+                        if m_ is not None:
+                            return SymMatch(m_, holes)
+                        return True
                     return ACond("re." + attr, base.pattern, subj, node)
                 if isinstance(subj, Sym):
                     return getattr(_re.compile(base.pattern), attr)("\x00") is not None
